@@ -100,8 +100,9 @@ Proof. exact step_authz_accept. Qed.
 Print Assumptions C08_authorization_service.
 
 (* Token service (AccessToken.parse_response + update_service_context via StandAloneClient.get_tokens): the
-   verified token passed verify_id_token, carries a nonce, and that nonce is bound to the very state the
-   tokens were requested for. *)
+   verified token passed verify_id_token, carries a nonce, that nonce is bound to the very state the tokens were
+   requested for, and it is the nonce in the request record of that state (not some other key - a subject, a
+   session id - that is bound to the state in the shared key map). *)
 Theorem C08_token_service : forall lhash c st r now c' stored,
   step_token lhash c st r now = (c', Ok stored) ->
   exists rec,
@@ -113,10 +114,99 @@ Theorem C08_token_service : forall lhash c st r now c' stored,
          verify_id_token lhash (svc_kwargs (cl_cfg c)) false None None t now = Ok vd /\
          assoc (PS "nonce") vd = Some (VStr n) /\ assoc n (cl_map c) = Some st /\
          assoc (PS "sub") vd = Some (VStr sub) /\ cl_map c' = aset sub st (cl_map c) /\
-         sub_clash (cl_db c) (cl_map c) st sub = false) /\
+         sub_clash (cl_db c) (cl_map c) st sub = false /\
+         assoc (PS "nonce") rec = Some (VStr n)) /\
     (assoc (verified_name (PS "id_token")) stored = None -> cl_map c' = cl_map c).
 Proof. exact step_token_accept. Qed.
 Print Assumptions C08_token_service.
+
+(* Refresh service (oidc RefreshAccessToken.update_service_context via refresh_access_token): an ID Token in a
+   refresh response passed verify_id_token; a nonce in it is bound to the very state that is refreshed AND is the
+   nonce in the request record of that state; its subject is the subject the session already has. *)
+Theorem C08_refresh_service : forall lhash c st r now c' stored,
+  step_refresh lhash c st r now = (c', Ok stored) ->
+  exists rec rt, db_get (cl_db c) st = Ok rec /\ assoc (PS "refresh_token") rec = Some (VStr rt) /\
+    c' = mkClient (cl_cfg c) (db_update (cl_db c) st stored) (cl_map c) /\
+    (forall v, assoc (verified_name (PS "id_token")) stored = Some v ->
+       exists t vd, r_idt r = Some t /\ v = VDict vd /\
+         verify_id_token lhash (svc_kwargs (cl_cfg c)) false None None t now = Ok vd /\
+         (forall n, assoc (PS "nonce") vd = Some (VStr n) ->
+            assoc n (cl_map c) = Some st /\ assoc (PS "nonce") rec = Some (VStr n)) /\
+         (forall before s, assoc (verified_name (PS "id_token")) rec = Some (VDict before) ->
+                           assoc (PS "sub") before = Some (VStr s) -> assoc (PS "sub") vd = Some (VStr s))).
+Proof. exact step_refresh_accept. Qed.
+Print Assumptions C08_refresh_service.
+
+(* The nonce a session's request was sent with is never replaced: whatever is merged into the records later (every
+   accepted response is: Current.update) - in particular a response member called nonce - the record of every
+   state keeps naming the nonce it named. *)
+Theorem C08_record_nonce_kept : forall db st0 info s rec n,
+  assoc s db = Some rec -> assoc (PS "nonce") rec = Some (VStr n) ->
+  exists rec', assoc s (db_update db st0 info) = Some rec' /\ assoc (PS "nonce") rec' = Some (VStr n).
+Proof. exact db_update_keeps_nonce. Qed.
+Print Assumptions C08_record_nonce_kept.
+
+(* THE NONCE CLAUSE OVER HISTORIES.  After ANY sequence of operations on any number of clients - sessions begun
+   (the relying party draws fresh states and nonces: fresh_history), authorization / token / refresh / user-info
+   responses with whatever members and whatever ID Tokens, accepted or refused, directly or through the RPHandler -
+   an ID Token accepted for the state st (in an authorization response naming st, or in the answer to the token /
+   refresh request made for st) by the client for issuer i carries the nonce that the authorization request of st
+   was sent with: st was begun by that client, with exactly one nonce n, and the token's nonce is n (a refresh
+   response may also carry an ID Token without nonce).  In particular the sub -> state and sid -> state bindings
+   that share the key map with the nonces, and the members of earlier responses, never make a foreign nonce
+   acceptable. *)
+Theorem C08_nonce_history : forall lhash cfgs pre o w' stored i st vd,
+  fresh_history lhash (init_world cfgs) pre ->
+  step lhash (run lhash (init_world cfgs) pre) o = (w', Ok stored) ->
+  idtoken_op o = true -> has_key (PS "error") stored = false ->
+  op_target (run lhash (init_world cfgs) pre) o = Some i -> accepted_for o stored st ->
+  assoc (verified_name (PS "id_token")) stored = Some (VDict vd) ->
+  exists n, In (st, n) (sent_by i pre) /\ (forall n', In (st, n') (sent_by i pre) -> n' = n) /\
+    (forall x, assoc (PS "nonce") vd = Some x -> x = VStr n) /\
+    (refresh_of o = None -> assoc (PS "nonce") vd = Some (VStr n)).
+Proof. exact history_nonce_sent. Qed.
+Print Assumptions C08_nonce_history.
+
+(* the invariant behind it, for every history: every session a client started still has its record, the record
+   still names the nonce it was sent with, and that nonce is still bound to that very state *)
+Theorem C08_history_invariant : forall lhash cfgs ops i st n,
+  fresh_history lhash (init_world cfgs) ops -> In (st, n) (sent_by i ops) ->
+  (exists rec, rec_of (run lhash (init_world cfgs) ops) i st = Some rec /\ assoc (PS "nonce") rec = Some (VStr n)) /\
+  map_of (run lhash (init_world cfgs) ops) i n = Some st /\ n <> [].
+Proof. exact history_invariant. Qed.
+Print Assumptions C08_history_invariant.
+
+(* non-vacuity: the history ex_hist_pre satisfies the freshness hypothesis (sessions S1/N1 and S2/N2 on one client;
+   the code response for S2 carried a member nonce = N1; S1 is completed; for S2 an ID Token with sub = N1 was
+   refused and one with sub = erin accepted).  After it, for S2: an ID Token carrying N1 (the nonce of the
+   completed session S1) is refused in the token response, in the refresh response and in an authorization
+   response; an ID Token whose nonce is the subject bound to S2 (erin) is refused; the ID Token with N2 is accepted,
+   and the record of S2 still names N2. *)
+Example C08_nonce_history_nonvacuous :
+  fresh_history ex_lhash (init_world ex_hist_cfgs) ex_hist_pre /\
+  sent_by ex_iss ex_hist_pre = [(PS "S1", PS "N1"); (PS "S2", PS "N2")] /\
+  (let tok n sub := OToken ex_iss (PS "S2") (ex_token_resp (Some (ex_tok_te n sub))) ex_now in
+   snd (step ex_lhash ex_hist_world (tok (PS "N1") (PS "erin"))) = Err E_ParameterError /\
+   snd (step ex_lhash ex_hist_world (tok (PS "erin") (PS "erin"))) = Err E_ParameterError /\
+   snd (step ex_lhash ex_hist_world (OAuthz ex_iss (ex_authz_resp (PS "S2") (Some (ex_tok_rs (PS "N1")))) ex_now)) = Err ValueError /\
+   (exists w' stored vd, step ex_lhash ex_hist_world (tok (PS "N2") (PS "erin")) = (w', Ok stored) /\
+      assoc (verified_name (PS "id_token")) stored = Some (VDict vd) /\ assoc (PS "nonce") vd = Some (VStr (PS "N2")))) /\
+  (exists rec, rec_of ex_hist_world ex_iss (PS "S2") = Some rec /\ assoc (PS "nonce") rec = Some (VStr (PS "N2")) /\
+               assoc (PS "code") rec = Some (VStr (PS "C1"))) /\
+  map_of ex_hist_world ex_iss (PS "N1") = Some (PS "S1") /\ map_of ex_hist_world ex_iss (PS "erin") = Some (PS "S2").
+Proof.
+  split.
+  { cbn [ex_hist_pre fresh_history fresh_begin].
+    assert (Hreq : forall st n v, In (PS "nonce", v) (ex_req st n) -> v = VStr n).
+    { intros st n v H. unfold ex_req in H. cbn [In] in H.
+      repeat (destruct H as [H|H]; [inversion H; try reflexivity; (vm_compute in H; discriminate)|]). destruct H. }
+    repeat split; try (vm_compute; (reflexivity || discriminate)); try (apply Hreq). }
+  split; [vm_compute; reflexivity|].
+  split.
+  { vm_compute. repeat split. do 3 eexists. repeat split; reflexivity. }
+  split; [vm_compute; eexists; repeat split; reflexivity|].
+  vm_compute. split; reflexivity.
+Qed.
 
 (* A __verified_id_token parameter supplied by the sender never survives: whatever is in the verified slot
    after verify() was put there by verify_id_token on the delivered token. *)
